@@ -71,6 +71,11 @@ type Client struct {
 
 // Call calls specified method of the Neo smart contract with provided arguments.
 func (c *Client) Call(contract util.Uint160, method string, args ...any) (*result.Invoke, error) {
+	if verifhook.Enabled {
+		if ok, r := verifhook.Morph(c, "Call", contract, method, args); ok {
+			return verifhook.Res[*result.Invoke](r, 0), verifhook.ResErr(r, 1)
+		}
+	}
 	var conn = c.conn.Load()
 
 	if conn == nil {
@@ -84,6 +89,11 @@ func (c *Client) Call(contract util.Uint160, method string, args ...any) (*resul
 // contract with provided arguments, and fetches iterator from the response
 // carrying up to limited number of items.
 func (c *Client) CallAndExpandIterator(contract util.Uint160, method string, maxItems int, args ...any) (*result.Invoke, error) {
+	if verifhook.Enabled {
+		if ok, r := verifhook.Morph(c, "CallAndExpandIterator", contract, method, maxItems, args); ok {
+			return verifhook.Res[*result.Invoke](r, 0), verifhook.ResErr(r, 1)
+		}
+	}
 	var conn = c.conn.Load()
 
 	if conn == nil {
@@ -96,6 +106,11 @@ func (c *Client) CallAndExpandIterator(contract util.Uint160, method string, max
 // TerminateSession closes opened session by its ID on the currently active Neo
 // RPC node the Client connected to. Returns true even if session was not found.
 func (c *Client) TerminateSession(sessionID uuid.UUID) (bool, error) {
+	if verifhook.Enabled {
+		if ok, r := verifhook.Morph(c, "TerminateSession", sessionID); ok {
+			return verifhook.Res[bool](r, 0), verifhook.ResErr(r, 1)
+		}
+	}
 	var conn = c.conn.Load()
 
 	if conn == nil {
@@ -111,6 +126,11 @@ func (c *Client) TerminateSession(sessionID uuid.UUID) (bool, error) {
 // Neo RPC node the Client connected to. Returns empty result if either there is
 // no more elements or session is closed.
 func (c *Client) TraverseIterator(sessionID, iteratorID uuid.UUID, maxItemsCount int) ([]stackitem.Item, error) {
+	if verifhook.Enabled {
+		if ok, r := verifhook.Morph(c, "TraverseIterator", sessionID, iteratorID, maxItemsCount); ok {
+			return verifhook.Res[[]stackitem.Item](r, 0), verifhook.ResErr(r, 1)
+		}
+	}
 	var conn = c.conn.Load()
 
 	if conn == nil {
@@ -124,6 +144,11 @@ func (c *Client) TraverseIterator(sessionID, iteratorID uuid.UUID, maxItemsCount
 // contract deployed in the blockchain the Client connected to and returns the
 // call result.
 func (c *Client) InvokeContractVerify(contract util.Uint160, params []smartcontract.Parameter, signers []transaction.Signer, witnesses ...transaction.Witness) (*result.Invoke, error) {
+	if verifhook.Enabled {
+		if ok, r := verifhook.Morph(c, "InvokeContractVerify", contract, params, signers, witnesses); ok {
+			return verifhook.Res[*result.Invoke](r, 0), verifhook.ResErr(r, 1)
+		}
+	}
 	var conn = c.conn.Load()
 
 	if conn == nil {
@@ -137,6 +162,11 @@ func (c *Client) InvokeContractVerify(contract util.Uint160, params []smartcontr
 // deployed in the blockchain the Client connected to and returns the call
 // result.
 func (c *Client) InvokeFunction(contract util.Uint160, operation string, params []smartcontract.Parameter, signers []transaction.Signer) (*result.Invoke, error) {
+	if verifhook.Enabled {
+		if ok, r := verifhook.Morph(c, "InvokeFunction", contract, operation, params, signers); ok {
+			return verifhook.Res[*result.Invoke](r, 0), verifhook.ResErr(r, 1)
+		}
+	}
 	var conn = c.conn.Load()
 
 	if conn == nil {
@@ -149,6 +179,11 @@ func (c *Client) InvokeFunction(contract util.Uint160, operation string, params 
 // InvokeScript tests given script on the Neo blockchain the Client connected to
 // and returns the script result.
 func (c *Client) InvokeScript(script []byte, signers []transaction.Signer) (*result.Invoke, error) {
+	if verifhook.Enabled {
+		if ok, r := verifhook.Morph(c, "InvokeScript", script, signers); ok {
+			return verifhook.Res[*result.Invoke](r, 0), verifhook.ResErr(r, 1)
+		}
+	}
 	var conn = c.conn.Load()
 
 	if conn == nil {
